@@ -524,7 +524,7 @@ func VerifC15_requestValidation() {
 
 func c15valueBound() int {
 	if vfTier() > 0 {
-		return 12
+		return 16
 	}
 	return 10 // "trailers" plus a list separator and one more byte on either side
 }
@@ -553,7 +553,7 @@ func VerifC15_connSpecificValues() {
 	}
 	fields = append(fields, names[k], v0)
 	if lines == 2 {
-		fields = append(fields, names[k], vfString("value1", vfLen("len1", 0, 2)))
+		fields = append(fields, names[k], vfString("value1", vfLen("len1", 0, 2+2*vfTier())))
 	}
 	if first {
 		fields = append(fields, "user-agent", "x")
